@@ -553,6 +553,50 @@ class Origins:
             return uniq[0]
         return ("phi", tuple(uniq))
 
+    def _apply_new_closure(self, c, args, bb):
+        """`let f = || expr(captures); .. f() ..` with a straight-line closure that the pinned tree does not have: the call
+        denotes `expr` with the captures put back (a closure introduced in place of a repeated expression)."""
+        try:
+            from . import lib as _lib
+            prog = getattr(_lib._TLS, "prog", None)
+            if prog is None or not args:
+                return None
+            env = args[0]
+            while env[0] in ("ref", "deref", "copy", "move"):
+                env = env[1]
+            if not (env[0] == "agg" and env[1] == "closure" and (c.closure_body is None or env[2] == c.closure_body)):
+                return None
+            cpath = env[2]
+            if cpath in _lib._pinned_set():
+                return None
+            kb = prog.bodies.get(cpath)
+            if kb is None or kb.coroutine:
+                return None
+            if any(bl["t"]["k"] == "switch" for bl in kb.blocks if not bl.get("cleanup")):
+                return None
+            ret = Origins(kb).of_local(0)
+            if any(isinstance(x, tuple) and x and x[0] in ("phi", "unknown", "cycle", "undef", "resume") for x in walk(ret)):
+                return None
+            names = [u["name"] for u in kb.upvars]
+            caps = env[3]
+
+            def repl(t):
+                if isinstance(t, tuple):
+                    if len(t) == 2 and t[0] == "upvar" and t[1] in names and names.index(t[1]) < len(caps):
+                        return caps[names.index(t[1])]
+                    return tuple(repl(x) for x in t)
+                return t
+            mapping = {}
+            if len(args) > 1:
+                tup = args[1]
+                while tup[0] in ("ref", "deref", "copy", "move"):
+                    tup = tup[1]
+                if tup[0] == "agg" and tup[1] == "tuple":
+                    mapping = {2 + i: el for i, el in enumerate(tup[3])}
+            return subst_params(repl(ret), mapping, tag=f"closure@bb{bb}")
+        except Exception:
+            return None
+
     def _of_def(self, d, depth, seen):
         kind, bb, si, payload = d
         if kind == "assign":
@@ -563,6 +607,10 @@ class Origins:
             name = c.fn or ("indirect:" + str(c.fty))
             if c.closure_body:
                 name = "closure:" + c.closure_body
+            if c.closure_body or name_matches(name, ("ops::function::Fn::call", "ops::function::FnMut::call_mut", "ops::function::FnOnce::call_once")):
+                app = self._apply_new_closure(c, args, bb)
+                if app is not None:
+                    return app
             return simplify(("call", name, args, bb))
         if kind == "yield":
             return ("resume",)
